@@ -342,11 +342,13 @@ def _decorate_namespace_property(
         for base in bases:
             if _has_member(base, key):
                 base_property = getattr(base, key)
-                assert isinstance(
-                    base_property, property
-                ), "Expected base {} to have {} as property, but got: {}".format(
-                    base, key, base_property
-                )
+                if not isinstance(base_property, property):
+                    # (raised explicitly: the refusal must not depend on the interpreter mode, cf. ``python -O``)
+                    raise AssertionError(
+                        "Expected base {} to have {} as property, but got: {}".format(
+                            base, key, base_property
+                        )
+                    )
 
                 if func == value.fget:
                     base_func = getattr(base, key).fget
